@@ -3,6 +3,7 @@ import Stackage.Model.Options
 import Stackage.Lemmas.Push
 import Stackage.Lemmas.Alias
 import Stackage.Lemmas.AliasEq
+import Stackage.Lemmas.AliasEqTop
 import Stackage.Lemmas.DefragMap
 import Stackage.Lemmas.Unmarshal
 
@@ -327,6 +328,73 @@ example :
     let a : Val := .stk .native { kind := 1, eqf := some 1 } [.stk .alias { kind := 1 } []]
     (Val.IsEqual peek false a a).toOption = some (some (.user 1)) ∧
     (Val.IsEqual peek false (erase a) (erase a)).toOption = some none := by decide
+
+/-! ### EqualityPolicies that look at the type of what they are handed
+
+A closure such as `func(_, peer any) error { if _, ok := peer.(stackage.Stack); !ok { return err }; … }` is not
+`HookBlind` - at the top level `IsEqual` hands it the argument as the caller passed it. On NESTED nodes it always
+receives converted (native) instances, so a receiver without a policy of its own still cannot tell an alias tree from
+its native twin, whatever such closures sit further down (`HookBelow`: the closure may look at the forms of the two
+values it is handed, not at the forms of their content). -/
+
+/-- `valuesEqual` on slots / expressions, under closures that may look at the top-level form of their arguments -/
+theorem C12_veq_nested_policies (hook : EqHook) (hh : HookBelow hook) (x y : Val) :
+    Val.veq hook (erase x) (erase y) = Val.veq hook x y := Val.veq_eraseTop hook hh x y
+
+/-- the exported `IsEqual` of a receiver that carries no EqualityPolicy itself: alias tree against alias tree is
+native twin against native twin, with any `HookBelow` closures on nested nodes -/
+theorem C12_isEqual_nested_policies (hook : EqHook) (hh : HookBelow hook) (same : Bool) (a b : Val)
+    (ha : (match a with | .stk _ c _ => c.eqf | .cnd _ c _ _ _ => c.eqf | _ => none) = none) :
+    Val.IsEqual hook same (erase a) (erase b) = Val.IsEqual hook same a b := Val.IsEqual_eraseTop hook hh same a b ha
+
+/-- "in both directions" for such closures: the alias tree against its own native twin, either way round, is the
+native twin against itself -/
+theorem C12_isEqual_nested_policies_twin (hook : EqHook) (hh : HookBelow hook) (same : Bool) (a : Val)
+    (ha : (match a with | .stk _ c _ => c.eqf | .cnd _ c _ _ _ => c.eqf | _ => none) = none) :
+    Val.IsEqual hook same a (erase a) = Val.IsEqual hook same (erase a) (erase a) ∧
+    Val.IsEqual hook same (erase a) a = Val.IsEqual hook same (erase a) (erase a) := by
+  have hea : (match erase a with | .stk _ c _ => c.eqf | .cnd _ c _ _ _ => c.eqf | _ => none) = none := by
+    cases a <;> simp_all [erase]
+  constructor
+  · have := C12_isEqual_nested_policies hook hh same a (erase a) ha
+    rw [erase_idem] at this; exact this.symm
+  · have := C12_isEqual_nested_policies hook hh same (erase a) a hea
+    rw [erase_idem] at this; exact this.symm
+
+/-- the harness's policy 3 ("equal exactly when the peer arrives as a native Stack / Condition") -/
+def nativePeer : EqHook := fun p _ peer =>
+  match peer with
+  | .stk .native _ _ | .cnd .native _ _ _ _ => none
+  | _ => some (.user p)
+
+/-- … satisfies `HookBelow` … -/
+theorem nativePeer_below : HookBelow nativePeer := by
+  intro p a b
+  cases b with
+  | stk f c xs => cases f <;> rfl
+  | cnd f c kw op ex => cases f <;> rfl
+  | anys xs => rfl
+  | nil => rfl
+  | leaf l => rfl
+  | zstk f => rfl
+  | zcnd f => rfl
+  | opv o => rfl
+
+/-- … and is not `HookBlind`; on a tree whose nested node carries it, alias tree and native twin are equal both ways
+(`C12_isEqual_nested_policies_twin` at work), while the same closure on the RECEIVER does tell an alias argument from
+a native one - which is why the theorem asks for a receiver without a policy of its own -/
+example :
+    ¬ HookBlind nativePeer ∧
+    (let a : Val := .stk .native { kind := 1 } [.stk .alias { kind := 2, eqf := some 3 } [.stk .ptr { kind := 4 } [.leaf (.int 1)]], .leaf (.int 2)]
+     (Val.IsEqual nativePeer false a (erase a)).toOption = some none ∧ (Val.IsEqual nativePeer false (erase a) a).toOption = some none ∧
+     (Val.IsEqual nativePeer false a a).toOption = some none) ∧
+    (let r : Val := .stk .native { kind := 1, eqf := some 3 } [.leaf (.int 2)]
+     let o : Val := .stk .alias { kind := 1 } [.leaf (.int 2)]
+     (Val.IsEqual nativePeer false r o).toOption = some (some (.user 3)) ∧ (Val.IsEqual nativePeer false r (erase o)).toOption = some none) := by
+  refine ⟨?_, by decide +kernel, by decide +kernel⟩
+  intro h
+  have := h 3 .nil (.stk .alias { kind := 1 } [])
+  simp [nativePeer, erase, eraseList] at this
 
 /-- non-vacuity: two independently built trees with different forms at every nesting site (element, Condition
 expression, nested element; a `[]any` leaf, a nil, an EqualityPolicy-free configuration) are equal, in all four
